@@ -1,5 +1,6 @@
 import SwcVerif.Props.C03
 import SwcVerif.Props.C03Cat
+import SwcVerif.Props.C03Gen
 #print axioms C03.wf_of_sorted
 #print axioms C03.sort_wf
 #print axioms C03.subtree_wf
@@ -14,3 +15,20 @@ import SwcVerif.Props.C03Cat
 #print axioms Represent.wf_subtree_represented
 #print axioms C03.op2_wf
 #print axioms C03.pipeline2_wf
+#print axioms RefineCtor.get?_old
+#print axioms RefineCtor.get?_fresh
+#print axioms RefineCtor.apply_new
+#print axioms RefineCtor.copy_and_apply_spec
+#print axioms RefineCtor.copy_and_apply_lift
+#print axioms RefineCtor.pure_of_eq
+#print axioms RefineCtor.mark_roots_as_somas_eq
+#print axioms RefineCtor.reset_index_eq
+#print axioms RefineCtor.sort_nodes_eq
+#print axioms RefineCtor.link_roots_to_nearest_eq
+#print axioms C03.generated_copy_and_apply_pure
+#print axioms C03.generated_copy_and_apply_eq
+#print axioms C03.generated_mark_roots_as_somas_pure
+#print axioms C03.generated_reset_index_pure
+#print axioms C03.generated_sort_nodes_pure
+#print axioms C03.generated_link_roots_to_nearest_pure
+#print axioms C03.generated_copying_eq
